@@ -113,7 +113,7 @@ def text_of_tokens(tokens):
 _REL_SUMMARY = {}
 
 
-def parse_relations(F, tokens, allow_substvar=False):
+def parse_relations(F, tokens, allow_substvar=False, st=None):
     """interpret Relations::parse_relaxed on a token sequence; returns (Relations value, errors, state, module)"""
     if "S" not in _REL_SUMMARY:
         tab = rp.lexer_table(F)
@@ -125,7 +125,7 @@ def parse_relations(F, tokens, allow_substvar=False):
     mod.summaries = {rp.PEEK_PAST_WS: ("peek_skipping", S or frozenset(), "tokens")}
     I = hirai.Interp(F, mod, max_depth=16)
     I.max_recursion = 8
-    res = I.inline(F.fn("debian_control::lossless::relations::Relations::parse_relaxed"), [("abs", "text"), ("bool", allow_substvar)], hirai.State(depth=0))
+    res = I.inline(F.fn("debian_control::lossless::relations::Relations::parse_relaxed"), [("abs", "text"), ("bool", allow_substvar)], st or hirai.State(depth=0))
     if len(res) != 1 or res[0][0] != OK:
         return None, None, None, mod
     v = res[0][1]
